@@ -19,7 +19,8 @@ CASE_TIMEOUT = 300
 BATCH_SIZE = {'quick': 1, 'thorough': 1}
 REQUIRED_COUNTERS = ['trees', 'constructions', 'drop_level_checks',
                      'leaf_pair_sets_checked', 'malformed_rejected',
-                     'malformed_label_tables_rejected']
+                     'malformed_label_tables_rejected',
+                     'malformed_cellless_rejected']
 EXHAUSTIVE = {'quick': False, 'thorough': True}
 RULE = ('case = a block of taxonomy shapes (thorough: all 470 unordered '
         'shapes with <=4 levels and <=6 leaves, exhaustive; quick: every '
@@ -342,20 +343,32 @@ def check_tree(ctx, model, rng, work):
     except RuntimeError:
         pass
     # -- malformed variants: one edit each, all must be rejected
-    for name, bad in malformed_variants(model, data, rng):
+    # ... of the tree with its cells and of the same tree without any
+    # reference cell (the form the mapper embeds in its outputs)
+    bare = model.to_dict(with_cells=False)
+    variants = [(n, b, False) for n, b in
+                malformed_variants(model, data, rng)]
+    variants += [(n, b, True) for n, b in
+                 malformed_variants(model, bare, rng)
+                 if n != 'cell-in-two-leaves']
+    for name, bad, cellless in variants:
         try:
             bt = TaxonomyTree(data=bad)
         except Exception:
             ctx.bump('malformed_rejected')
+            if cellless:
+                ctx.bump('malformed_cellless_rejected')
             continue
         if name == 'child-listed-twice':
             # every node still has exactly one parent, so acceptance alone
             # does not contradict the statement; but then the tree must
             # behave as the strict tree it denotes
             ctx.bump('repeated_child_accepted')
-            compare_tree_to_model(ctx, bt, model, 'child-listed-twice')
+            compare_tree_to_model(ctx, bt, model, 'child-listed-twice',
+                                  check_cells=not cellless)
             continue
-        ctx.V(f'C10:malformed-accepted[{name}]',
+        ctx.V(f'C10:malformed-accepted[{name}'
+              f'{",no-cells" if cellless else ""}]',
               f'{json.dumps(bad, default=str)[:900]}')
 
 
